@@ -10,12 +10,13 @@ import vlib
 WK = {("set", "invalidate"): "WK_two", ("set",): "WK_set", ("invalidate",): "WK_inv", ("evict",): "WK_ev"}
 
 
-def lr_cfg(getters, refreshers, writers, wk, live, preload=False, expected="live", stale_cancels=False, window=False):
+def lr_cfg(getters, refreshers, writers, wk, live, preload=False, expected="live", stale_cancels=False, window=True, reg_locked=True):
     return ("SPECIFICATION Spec\nCONSTANTS\n Getters = {%s}\n Refreshers = {%s}\n Writers = {%s}\n WriterKind <- %s\n"
-            " Outcomes = {\"val\", \"err\", \"nf\", \"panic\"}\n Preload = %s\n Expected = %s\n StaleCancels = %s\n"
+            " Outcomes = {\"val\", \"err\", \"nf\", \"panic\"}\n Preload = %s\n Expected = %s\n StaleCancels = %s\n RegLocked = %s\n"
             "INVARIANTS NoOverlap CleanTable Returned JoinersShare NoStaleInstall NoDrop LockFree%s\n%s" %
             (", ".join(map(str, getters)), ", ".join(map(str, refreshers)), ", ".join(map(str, writers)), wk,
-             "TRUE" if preload else "FALSE", '"%s"' % expected, "TRUE" if stale_cancels else "FALSE", " NoWindowInstall" if window else "",
+             "TRUE" if preload else "FALSE", '"%s"' % expected, "TRUE" if stale_cancels else "FALSE", "TRUE" if reg_locked else "FALSE",
+             " NoWindowInstall" if window else "",
              "PROPERTIES Terminates\n" if live else ""))
 
 
@@ -184,7 +185,7 @@ def scenarios(prop, quick, seed):
         if fam == 2 and refresh and (j // 8) % 2:
             sc.update(bulkref=1 + (j // 16) % 2)
         if fam == 4 and (j // 8) % 4 == 0 and prop == "C09":
-            # F17 (open finding): the schedule TLC found on LoadRace.tla (NoWindowInstall) - a reload registered while an
+            # F17 (fixed by 1a4f8c2; kept as a regression): the schedule TLC found on LoadRace.tla (NoWindowInstall) - a reload registered while an
             # invalidation of the key is between clearing the in-flight record and publishing the removal; the user's
             # atomic deletion handler runs exactly there and is the gate
             sc.update(getters=0, bulk=0, refreshers=1, refresh=1, preload=1, outcomes=["val"], writers=["invalidate"], policy="script", hgate=1,
@@ -215,9 +216,9 @@ def run(prop, tier, replay=None, collect_only=False):
         else:
             inst = [("g1r1w2", lr_cfg([1], [3], [11, 12], "WK_two", True)), ("g1r1w2p", lr_cfg([1], [3], [11, 12], "WK_two", True, preload=True)),
                     ("g2w1ev", lr_cfg([1, 2], [], [11], "WK_ev", True)), ("g1r1stale", lr_cfg([1], [3], [11, 12], "WK_set_stale", True, preload=True))]
-            # the switches set the old way must violate (otherwise the invariants are vacuous): F14, F17 (open), F16
-            neg = [("neg_F14", lr_cfg([1], [], [11], "WK_set", False, expected="none", window=True), "NoWindowInstall"),
-                   ("neg_F17", lr_cfg([1], [3], [11], "WK_inv", False, preload=True, window=True), "NoWindowInstall"),
+            # the switches set the old way must violate (otherwise the invariants are vacuous): F14, F17, F16
+            neg = [("neg_F14", lr_cfg([1], [], [11], "WK_set", False, expected="none", reg_locked=False), "NoWindowInstall"),
+                   ("neg_F17", lr_cfg([1], [3], [11], "WK_inv", False, preload=True, reg_locked=False), "NoWindowInstall"),
                    ("neg_F16", lr_cfg([1], [], [11], "WK_stale", False, stale_cancels=True), "NoDrop")]
             if prop == "C11":
                 inst = [("g1r2w1", lr_cfg([1], [3, 4], [11], "WK_set", True, preload=True))]
